@@ -3,8 +3,15 @@
 use crate::engine::{Ctx, Property};
 
 pub mod c01;
+pub mod c02;
+pub mod c03;
+pub mod c04;
+pub mod c05;
 pub mod c08;
+pub mod c09;
 pub mod c10;
+pub mod c11;
+pub mod c16;
 pub mod c17;
 pub mod c18;
 pub mod decgen;
@@ -14,8 +21,15 @@ pub fn property(id: &str, ctx: &Ctx) -> Option<Property> {
     let _ = ctx;
     Some(match id {
         "C01" => c01::property(),
+        "C02" => c02::property(),
+        "C03" => c03::property(),
+        "C04" => c04::property(),
+        "C05" => c05::property(),
         "C08" => c08::property(),
+        "C09" => c09::property(),
         "C10" => c10::property(),
+        "C11" => c11::property(),
+        "C16" => c16::property(),
         "C18" => c18::property(),
         "C17" => c17::property(),
         _ => return None,
